@@ -10,6 +10,12 @@ correspondence : real hierarchies (every constructor, AIR with R != P^T, hand-bu
                  intermediate quantity) with solve(b, x0, maxiter=1|k, cycle, cycles_per_level),
                  aspreconditioner(cycle) @ v, x0 + M (b - A x0) on further vectors, and the recorded order of
                  smoother / coarse-solver calls (exact).
+                 Extension E17 (Model/ExtSolvePath.lean): on the first configuration of every such hierarchy the composed
+                 models are run as well -- ext_e17_solve = C01's statement-by-statement loop solvePy on cycM with the exact
+                 residual test (x0 given/omitted, list with stale content, callback, return_info, a tolerance placed strictly
+                 between two observed residual norms or 0) against the real solve with the same options (vectors judged here,
+                 the bookkeeping by C01), and ext_e17_precond = C08's plan followed by aspreconditioner-through-solvePy against
+                 the operator a recording accelerator of either calling convention receives (cycle string in either case).
                  Gauss-Seidel / SOR / Jacobi closures on real CSR levels are in addition compared (1e-10) with the Q that
                  the Lean kernel models of C09 (pygs / pyjac, proved linear iterations) produce column by column.
 search         : an independent NumPy recursion from the same pieces; exact solution is a fixed point; k one-cycle
@@ -20,6 +26,14 @@ search         : an independent NumPy recursion from the same pieces; exact solu
                  smoother installed on level i is the requested method with the requested options (systematic option
                  grid of every linear family, both sides, per-level lists of all length combinations, CSR / AIR / BSR
                  base hierarchies, via the constructors and via change_smoothers); order and number of coarse solves.
+storage types  : every configuration is also run with b and x0 stored in other types than the matrix (float32 / float16 /
+                 integer / bool right-hand side with a float64 or complex128 initial guess, real b with complex x0 and complex b
+                 with real x0 on complex hierarchies, narrow x0 with wide b, x0 as a Python list; complex data on hierarchies of
+                 real matrices may be refused with a TypeError, otherwise the part-by-part result is required): one cycle ==
+                 x0 + M (b - A x0) on the VALUES in the common upcast type (NumPy recursion, 1e-9), the same values stored in the
+                 common type give the same result (1e-13 of the result: separates a single-precision rounding of an input from
+                 double rounding), k calls with the wide iterate fed back == one k-cycle call, x0 omitted, aspreconditioner @ v,
+                 the exact solution of the narrow right-hand side is a fixed point, b and x0 keep their content and type.
 histories      : every grid specification and a third of the random ones is also run after
                  MultilevelSolver.change_solve_matrix(Anew) (Anew = S A S, same format / block size): the whole pipeline
                  above (finest-level smoothers consistent with Anew, requested method with its default options set up for
@@ -42,7 +56,8 @@ META = {
             'pairwise, adaptive_sa, air, hand-built MultilevelSolver with random P, R = P^H or independent R, Galerkin or not) x '
             'max_levels/max_coarse x pre/post smoother (all linear families, options, per-level lists, via constructor or '
             'change_smoothers) x coarse solver (pinv, lu, cholesky, splu) x history (as built | after change_solve_matrix(S A S)); '
-            'cycle in V, W, F with cycles_per_level 1..3; '
+            'cycle in V, W, F with cycles_per_level 1..3; b and x0 in the matrix type and in mixed storage types (narrower / '
+            'integer / bool / real-vs-complex / Python list; values compared in the common upcast type); '
             'non-trivial = at least 2 levels for V, at least 3 levels for W and F (otherwise the cycle types coincide); '
             'distinct = distinct (hierarchy specification, cycle, cycles_per_level)',
     'search_only': ['hierarchies too large for the exact rational model (real dimension > 34 quick / 44 thorough) and hierarchies '
@@ -51,8 +66,13 @@ META = {
                     'the requested-smoother check (closure installed on level i == the requested relaxation call with the '
                     'requested options; systematic option grid of every linear smoother family) has a Lean counterpart only for '
                     'Gauss-Seidel / SOR / Jacobi on real CSR levels (kernel models pygs / pyjac)',
-                    'solve(accel=...) hands aspreconditioner(cycle) to the Krylov method: observed through a recording accel',
-                    'repeatability of identical calls and the in-place integrity of b and x0'],
+                    'solve(accel=...) hands aspreconditioner(cycle) to the Krylov method: for callables of both conventions the '
+                    'composed model (C08 plan + C01 loop + this cycle model; theorem accelerated_solve_preconditioner_is_M) is '
+                    'compared with what a recording accel receives; named accelerators are observed by C08',
+                    'repeatability of identical calls and the in-place integrity of b and x0',
+                    'mixed storage types of b and x0 (the Lean model works on values; that solve() converts b and x0 to the common '
+                    'type without changing their values is observed against the NumPy recursion and against the same values '
+                    'stored in the common type)'],
     'partial': [],
     'assumptions': ['the smoother closures and the coarse solver are probed on unit vectors and checked per instance to be affine '
                     'maps x + Q (b - A x) resp. linear maps (1e-8); their internals are C09 / outside this property',
@@ -62,7 +82,8 @@ META = {
                     'intermediate quantity of the cycle; instances whose reference operator amplifies a vector by more than 1e4, '
                     'whose probed pieces exceed 1e6 or whose coarse matrix has condition > 1e8 are skipped and counted',
                     'the residual test of solve is switched off (tol = 0) for the k-cycle calls, matching the hypothesis of '
-                    'k_one_cycle_calls_eq_one_k_cycle_call',
+                    'k_one_cycle_calls_eq_one_k_cycle_call; the E17 runs with a live test place tol*||b|| at least 20 % away from '
+                    'every residual norm it is compared with (and above 1e-6 of the scale), so rounding cannot flip the decision',
                     'one-level hierarchies have the form x + M (b - A x) only for nonsingular A (theorem one_level_cycle); the '
                     'singular one-level case is the known finding one-level-singular-x0-ignored'],
 }
@@ -722,6 +743,165 @@ def parse_reply(H, o):
 
 
 # ------------------------------------------------------------------------------------------------
+# extension E17: the composed solve-path models (Model/ExtSolvePath.lean, theorems Proofs/ExtSolvePath.lean)
+#   ext_e17_solve   = SolvePath.solvePyM : C01's statement-by-statement loop (x0 given/omitted, caller's list with stale
+#                     content, callback, return_info, tolerance test) on C03's cycle model, exact residual test
+#   ext_e17_precond = C08.plan followed by SolvePath.callPrecond : the M handed to the accelerator, applied to a vector
+# ------------------------------------------------------------------------------------------------
+
+def e17_observe(ctx, H, hdr, c, cpl, x0, b, A0d, scale):
+    """one real stand-alone solve with all options and one accelerated solve with a recording accelerator; returns the
+    observations and the two driver lines (None when the real calls raise: reported by the caller's other checks)"""
+    rng = ctx.np_rng
+    ml = H.ml
+    n = H.dims[0]
+    K = int(rng.integers(2, 4))
+    x0given = bool(rng.random() < 0.7)
+    has_res, has_cb, ret_info = (bool(rng.random() < 0.8), bool(rng.random() < 0.7), bool(rng.random() < 0.7))
+    start = x0 if x0given else np.zeros(n, dtype=H.dt)
+    normb = float(np.linalg.norm(b)) or 1.0
+    sc_a = (1.0 + float(np.abs(A0d).sum(axis=1).max(initial=0.0))) * scale + normb
+    # trial run (no tolerance test) to place the tolerance strictly between two observed residual norms
+    trial = [-1.0]
+    ml.solve(b, x0=(x0.copy() if x0given else None), tol=0.0, maxiter=K, cycle=c, cycles_per_level=cpl, residuals=trial)
+    tol = 0.0
+    if len(trial) == K + 1 and rng.random() < 0.65:
+        j = int(rng.integers(1, K + 1))
+        rj = float(trial[j])
+        prev = min([float(t) for t in trial[1:j]], default=max(4.0 * rj, 1e-3 * normb))
+        T = float(np.sqrt(max(rj, 1e-300) * prev)) if prev > 0 else 0.0
+        if np.isfinite(T) and T > 1e-6 * sc_a and rj < 0.8 * T and prev > 1.25 * T:
+            tol = T / normb
+    res = [-1.0] if has_res else None
+    cbs = []
+    out = ml.solve(b, x0=(x0.copy() if x0given else None), tol=tol, maxiter=K, cycle=c, cycles_per_level=cpl, residuals=res,
+                   callback=(lambda v: cbs.append(np.array(np.ravel(v), copy=True))) if has_cb else None, return_info=ret_info)
+    if ret_info:
+        xr, info = out
+    else:
+        xr, info = out, None
+    a0 = _encm(_realify_m(A0d, H.cplx))
+    f = lambda t: '1' if t else '0'
+    line1 = (f'ext_e17_solve {c} {cpl} {K} {enc_rat(tol)} {f(x0given)} {f(has_res)} {f(has_cb)} {f(ret_info)} {a0} {hdr} '
+             f'{enc_rats(_realify_v(x0, H.cplx))} {enc_rats(_realify_v(b, H.cplx))}')
+    # the preconditioner of the accelerated branch, through a recording accelerator of either convention
+    captured = []
+    style = 'pyamg' if rng.random() < 0.5 else 'scipy1'
+
+    def acc_pyamg(A, b, x0=None, tol=None, maxiter=None, M=None, callback=None, residuals=None):
+        captured.append(M)
+        return (np.zeros_like(b) if x0 is None else x0), 0
+
+    def acc_scipy(A, b, x0=None, *, rtol=1e-5, atol=0.0, maxiter=None, M=None, callback=None):
+        captured.append(M)
+        return (np.zeros_like(b) if x0 is None else x0), 0
+
+    cstr = c.lower() if rng.random() < 0.5 else c
+    ml.solve(np.ones(n, dtype=H.dt), x0=np.zeros(n, dtype=H.dt), maxiter=3, cycle=cstr, tol=1e-8,
+             accel=acc_pyamg if style == 'pyamg' else acc_scipy)
+    pv = [np.ravel(M @ b) for M in captured if M is not None]
+    line2 = (f'ext_e17_precond {cstr} _ 1 f:{style} {enc_rat(1e-8)} 3 1 0 0 0 {a0} {hdr} {enc_rats(_realify_v(b, H.cplx))}')
+    return {'lines': [line1, line2], 'K': K, 'tol': tol, 'x0given': x0given, 'has_res': has_res, 'has_cb': has_cb,
+            'ret_info': ret_info, 'x': np.ravel(xr), 'info': info, 'res': None if res is None else [float(t) for t in res],
+            'cb': cbs, 'start': start, 'sc_a': sc_a, 'pv': pv, 'ncaptured': len(captured), 'style': style, 'cstr': cstr}
+
+
+def e17_oracle(H, it, ob):
+    """what the property (C01 bookkeeping on the textbook cycle) determines, from the NumPy recursion"""
+    c, cpl, b, A0d = it['c'], it['cpl'], it['b'], it['A0d']
+    normb = float(np.linalg.norm(b)) or 1.0
+    ys = [np.ravel(ob['start'])]
+    for _ in range(ob['K']):
+        ys.append(np.ravel(ref(H, ys[-1], b, c, cpl)[0]))
+    rs = [float(np.linalg.norm(b - A0d @ y)) for y in ys]
+    k, info = ob['K'], ob['K']
+    for j in range(1, ob['K'] + 1):
+        if rs[j] < ob['tol'] * normb:
+            k, info = j, 0
+            break
+    return {'x': ys[k], 'info': info if ob['ret_info'] else None, 'res': rs[:k + 1] if ob['has_res'] else None,
+            'cb': ys[1:k + 1] if ob['has_cb'] else []}
+
+
+def _e17_book(d):
+    return (d['info'], None if d['res'] is None else len(d['res']), len(d['cb']))
+
+
+def _e17_vecs_same(got, want, sc):
+    return (len(got['cb']) == len(want['cb']) and _close(got['x'], want['x'], sc)
+            and all(_close(g, w, sc) for g, w in zip(got['cb'], want['cb'])))
+
+
+def judge_e17(ctx, items, outs):
+    """correspondence of the composed models with the real calls; a disagreement is judged by the NumPy oracle.  This
+    property determines the VECTORS (returned iterate, callback arguments = textbook cycles applied k times); how many cycles
+    are performed, `info` and the list are C01's: when they differ from the model only the vectors are judged here."""
+    for idx, it in enumerate(items):
+        ob, H, spec, c, cpl = it['e17'], it['H'], it['spec'], it['c'], it['cpl']
+        o1, o2 = outs[2 * idx], outs[2 * idx + 1]
+        sc = 4 * it['scale']
+        desc = _case(spec, dims=H.dims, cycle=c, cpl=cpl, kind='e17-solve', maxiter=ob['K'], tol=ob['tol'], x0given=ob['x0given'],
+                     residuals=ob['has_res'], callback=ob['has_cb'], return_info=ob['ret_info'], x0=_lst(it['x0']), b=_lst(it['b']))
+        ctx.feat('e17:solve')
+        ctx.feat(f"e17:stop={'tol' if ob['tol'] > 0 else 'maxiter'}")
+        got = {'x': ob['x'], 'info': ob['info'], 'res': ob['res'], 'cb': ob['cb']}
+        parts = o1.split('#') if o1 not in ('bad-op', 'none') else None
+        model = None
+        if parts is not None and len(parts) == 5:
+            fv = lambda t: _unreal_v([float(q) for q in dec_list(t, dec_rat)], H.cplx)
+            try:
+                model = {'x': fv(parts[0]), 'info': None if parts[1] == '_' else int(parts[1]),
+                         'res': None if parts[2] == '_' else [float(np.sqrt(float(q))) for q in dec_list(parts[2], dec_rat)],
+                         'cb': [] if parts[3] == '-' else [fv(t) for t in parts[3].split(';')]}
+            except Exception:
+                model = None
+            if model is not None and parts[4] != '1':
+                ctx.corr('ext_e17_solve self-check (solvePyM returns what solveM returns; theorem solvePyM_x)', desc, parts[4], '1')
+        if model is None:
+            ctx.corr('ext_e17_solve', desc, o1[:200], 'n/a', 'driver rejected the request')
+        elif _e17_book(got) != _e17_book(model):
+            # number of cycles / info / list bookkeeping: C01's statement, not this property's
+            ctx.feat('e17:bookkeeping-differs(decided-by-C01)')
+            k_real = len(got['cb']) if ob['has_cb'] else (len(got['res']) - 1 if ob['has_res'] else None)
+            if k_real is not None and 1 <= k_real <= ob['K']:
+                want = e17_oracle(H, it, dict(ob, tol=0.0, K=k_real))
+                if not _e17_vecs_same(got, want, sc):
+                    ctx.violation(f"stand-alone solve: the vector returned after {k_real} {c}-cycles (cycles_per_level={cpl}) or a callback "
+                                  f"argument is not the textbook cycle applied that many times", dict(desc, kind='cycle'))
+        else:
+            ctx.feat('e17:solve:compared')
+            if got['res'] is not None and _close(got['res'], model['res'], ob['sc_a'], 1e-8):
+                ctx.feat('e17:residual-list-agrees')
+            if not _e17_vecs_same(got, model, sc):
+                ctx.corr('solve(b, x0, tol, maxiter, cycle, residuals, callback, return_info) vs solvePyM (C01 loop on the C03 cycle)', desc,
+                         {'info': model['info'], 'ncb': len(model['cb']), 'x': np.ravel(model['x'])[:4].tolist()},
+                         {'info': got['info'], 'ncb': len(got['cb']), 'x': np.ravel(got['x'])[:4].tolist()})
+                want = e17_oracle(H, it, ob)
+                if not _e17_vecs_same(got, want, sc):
+                    ctx.violation(f"stand-alone solve (maxiter={ob['K']}, tol={ob['tol']:.3g}, {c}, cycles_per_level={cpl}): the returned vector "
+                                  f"or a callback argument is not the textbook cycle applied {len(want['cb']) if ob['has_cb'] else '<=' + str(ob['K'])} "
+                                  f"times", dict(desc, kind='cycle'))
+        # ---- the preconditioner handed to the accelerator
+        ctx.feat('e17:precond:' + ob['style'])
+        d2 = dict(desc, kind='precond', cycle_string=ob['cstr'], accel_convention=ob['style'])
+        mr, scp = ref(H, np.zeros_like(it['b']), it['b'], c, 1)
+        if o2 in ('bad-op', 'raise') or '?' in o2:
+            ctx.corr('ext_e17_precond', d2, o2[:200], 'n/a', 'the plan does not reach the accelerator')
+            mvs = None
+        else:
+            mvs = [_unreal_v([float(q) for q in dec_list(t, dec_rat)], H.cplx) for t in o2.split('|')]
+        bad = len(ob['pv']) == 0          # nothing (or None) handed over
+        scq = max(sc, scp)
+        if mvs is not None and not bad and not all(_close(pv, mv, scq) for pv in ob['pv'] for mv in mvs):
+            ctx.corr(f"M handed to accel (cycle={ob['cstr']!r}) applied to b vs callPrecond (plan + C01 loop + C03 cycle)", d2,
+                     np.ravel(mvs[0])[:6].tolist(), ob['pv'][0][:6].tolist())
+            bad = not all(_close(pv, mr, scq) for pv in ob['pv'])
+        if bad:
+            ctx.violation(f"solve(accel=<{ob['style']}-convention callable>, cycle={ob['cstr']!r}): the preconditioner handed to the accelerator "
+                          f"({ob['ncaptured']} received) is not M of one {c}-cycle with cycles_per_level=1", d2)
+
+
+# ------------------------------------------------------------------------------------------------
 # the check of one hierarchy
 # ------------------------------------------------------------------------------------------------
 
@@ -800,6 +980,161 @@ def check_smoothers_requested(ctx, H, spec):
                 if fkey is None:
                     return False
     return True
+
+
+# ------------------------------------------------------------------------------------------------
+# storage types of b and x0: the statement is quantified over ALL b, x0 -- the arrays a caller passes need not be stored in
+# the type of the matrix (a real load vector for a complex matrix, single-precision or integer data, the wide iterate
+# returned by an earlier call fed back as x0).  solve() is documented to bring A, b and x to a common type; the cycle is then
+# x0 + M (b - A x0) evaluated on the VALUES of b and x0 in that common type.
+# ------------------------------------------------------------------------------------------------
+
+# (storage of b, storage of x0); 'list' / 'clist' = a plain Python list of floats / complex numbers (x0 only)
+REAL_PAIRS = [('f4', 'f8'), ('i8', 'f8'), ('i4', 'f8'), ('f4', 'f8'), ('i8', 'f8'), ('f2', 'f8'), ('bool', 'f8'), ('u1', 'f8'),
+              ('f8', 'f4'), ('f8', 'i8'), ('f8', 'f2'), ('f4', 'f4'), ('i8', 'i8'), ('i4', 'f4'), ('f4', 'i4'), ('f8', 'list'),
+              ('f4', 'list'), ('i8', 'list')]
+CPLX_PAIRS = [('f8', 'c16'), ('f8', 'c16'), ('f4', 'c16'), ('i8', 'c16'), ('c8', 'c16'), ('c16', 'f8'), ('c16', 'c8'), ('c16', 'i8'),
+              ('c16', 'f4'), ('f8', 'c8'), ('c8', 'f8'), ('f8', 'f8'), ('f4', 'f8'), ('i8', 'f4'), ('c8', 'c8'), ('f8', 'clist'),
+              ('i4', 'clist'), ('bool', 'c16')]
+# complex data for a hierarchy of real matrices: M is real-linear, so its action on complex vectors is determined (real and
+# imaginary parts separately); the code may refuse such a call with a TypeError but must not return anything else
+REAL_H_CPLX_PAIRS = [('c16', 'f8'), ('f8', 'c16'), ('c16', 'c16'), ('c8', 'f8'), ('f4', 'c16'), ('i8', 'c16'), ('f8', 'clist')]
+_WIDE = {'f8', 'c16', 'list', 'clist'}
+
+
+def _typed(rng, n, t):
+    """a vector with full-precision content of storage type t (so that any narrowing cast changes it)"""
+    if t in ('i8', 'i4', 'i2'):
+        return rng.integers(-4, 5, size=n).astype(np.dtype(t))
+    if t == 'u1':
+        return rng.integers(0, 9, size=n).astype(np.uint8)
+    if t == 'bool':
+        return rng.random(n) < 0.5
+    v = 3.0 * rng.standard_normal(n)
+    if t in ('c16', 'c8', 'clist'):
+        v = v + 3.0j * rng.standard_normal(n)
+    if t in ('list', 'clist'):
+        return v.tolist()
+    return v.astype(np.dtype(t))
+
+
+def _retype(v, t):
+    """replay: values (wide array) -> the recorded storage type"""
+    if t in (None, ''):
+        return v
+    if t in ('list', 'clist'):
+        return np.asarray(v).tolist()
+    return np.asarray(v).astype(np.dtype(t))
+
+
+def _same_store(a, keep):
+    if isinstance(keep, list):
+        return isinstance(a, list) and a == keep
+    return isinstance(a, np.ndarray) and a.dtype == keep.dtype and np.array_equal(a, keep)
+
+
+def ref_any(H, x0, b, c, cpl, k=1):
+    """ref for values of any type: a hierarchy of real matrices acts on complex data part by part"""
+    x0, b = np.asarray(x0), np.asarray(b)
+    if H.cplx or not (np.iscomplexobj(x0) or np.iscomplexobj(b)):
+        return ref(H, x0.astype(H.dt), b.astype(H.dt), c, cpl, k)
+    yr, s1 = ref(H, x0.real.astype(float), b.real.astype(float), c, cpl, k)
+    yi, s2 = ref(H, x0.imag.astype(float), b.imag.astype(float), c, cpl, k)
+    return yr + 1j * yi, max(s1, s2)
+
+
+def check_storage_types(ctx, spec, H, c, cpl, A0d, viol):
+    """one configuration with b and x0 stored in types other than the matrix type: one cycle, x0 omitted, the preconditioner,
+    k calls == one k-call with the (wide) iterate fed back, exact solution of the narrow right-hand side is a fixed point,
+    the result depends on the VALUES of b and x0 only (the same values stored in the common type give the same result)"""
+    rng = ctx.np_rng
+    n = H.dims[0]
+    foreign = (not H.cplx) and rng.random() < 0.12
+    pairs = REAL_H_CPLX_PAIRS if foreign else (CPLX_PAIRS if H.cplx else REAL_PAIRS)
+    bt, xt = pairs[int(rng.integers(len(pairs)))]
+    b, x0 = _typed(rng, n, bt), _typed(rng, n, xt)
+    bkeep = b.copy()
+    xkeep = list(x0) if isinstance(x0, list) else x0.copy()
+    W = complex if (H.cplx or foreign) else float
+    bw, xw = np.asarray(b).astype(W), np.asarray(x0).astype(W)          # the same values in the common type (widening: exact)
+    how = f'b stored as {np.asarray(b).dtype}, x0 as {"a Python list" if isinstance(x0, list) else x0.dtype}, matrix {H.ml.levels[0].A.dtype}'
+    desc = dict(cycle=c, cpl=cpl, x0=_lst(xw), b=_lst(bw), b_dtype=bt, x0_dtype=xt)
+    ctx.feat(f'storage:b={bt},x0={xt}' + (',real-matrices' if foreign else ''))
+    try:
+        y1 = np.ravel(_solve(H, b, x0, c, cpl))
+    except TypeError as e:
+        if foreign:          # refused loudly: nothing is returned that could be wrong
+            ctx.feat('storage:complex-data-real-matrices:refused(TypeError)')
+            return
+        viol(f'solve(maxiter=1, cycle={c!r}) raised {type(e).__name__}: {e} ({how})', kind='mixed-dtype', **desc)
+        return
+    except Exception as e:
+        viol(f'solve(maxiter=1, cycle={c!r}) raised {type(e).__name__}: {e} ({how})', kind='mixed-dtype', **desc)
+        return
+    if foreign:
+        ctx.feat('storage:complex-data-real-matrices:accepted')
+    yr, sc = ref_any(H, xw, bw, c, cpl)
+    ctx.rel_err(float(np.abs(y1 - yr).max(initial=0.0) / sc))
+    if not _close(y1, yr, sc):
+        viol(f'one {c}-cycle (cycles_per_level={cpl}) with {how} is not x0 + M (b - A x0) on the values of b and x0 in the common '
+             f'type: max difference from the textbook recursion {np.abs(y1 - yr).max():.3g} (scale {sc:.3g})', kind='mixed-dtype', **desc)
+        return
+    k = 2
+    xs = None
+    if bt not in _WIDE:
+        try:
+            xs = np.linalg.solve(A0d.astype(W), bw)
+            if not (np.all(np.isfinite(xs)) and np.abs(A0d @ xs - bw).max() <= 1e-10 * (1 + np.abs(bw).max())
+                    and np.abs(xs).max() < 1e6):
+                xs = None
+        except Exception:
+            xs = None
+    try:
+        yu = np.ravel(_solve(H, bw, xw, c, cpl))
+        xk = np.ravel(_solve(H, b, x0, c, cpl, k))
+        y2 = np.ravel(_solve(H, b, y1, c, cpl))          # the wide iterate fed back with the narrow right-hand side
+        yz = np.ravel(_solve(H, b, None, c, cpl))
+        Mop = H.ml.aspreconditioner(cycle=c)
+        pv = np.ravel(Mop @ b)
+        pw = np.ravel(Mop @ bw)
+        ys = np.ravel(_solve(H, b, xs.copy(), c, cpl)) if xs is not None else None
+    except Exception as e:
+        viol(f'solve / aspreconditioner raised {type(e).__name__}: {e} on the values of an accepted call ({how}) stored in the common '
+             f'type, fed back, or without x0', kind='mixed-dtype', **desc)
+        return
+    if not (_same_store(b, bkeep) and _same_store(x0, xkeep)):
+        viol(f'solve modified its right-hand side or initial guess in place ({how})', kind='mixed-dtype', **desc)
+        return
+    # identical values in another storage type go through identical arithmetic after the conversion: compared relative to the
+    # result itself (far below single-precision rounding of an input)
+    if not _close(y1, yu, 1 + np.abs(yu).max(initial=0.0), 1e-13):
+        viol(f'one {c}-cycle (cycles_per_level={cpl}) depends on how b and x0 are stored, not only on their values: {how} gives a '
+             f'result that differs by {np.abs(y1 - yu).max():.3g} (size {np.abs(yu).max(initial=0.0):.3g}) from the same values stored in '
+             f'the common type -- M is determined by the hierarchy and the cycle type only', kind='mixed-dtype', **desc)
+        return
+    xkr, sck = ref_any(H, xw, bw, c, cpl, k)
+    if not _close(xk, y2, 1 + np.abs(xk).max(initial=0.0), 1e-12) or not _close(xk, xkr, sck):
+        viol(f'{k} one-cycle calls (the returned iterate fed back as x0) differ from one call with maxiter={k} ({c}, '
+             f'cycles_per_level={cpl}; {how}): |diff| = {np.abs(xk - y2).max():.3g}, against the reference {np.abs(xk - xkr).max():.3g}',
+             kind='mixed-dtype', k=k, **desc)
+        return
+    zr, scz = ref_any(H, np.zeros(n), bw, c, cpl)
+    if not _close(yz, zr, scz):
+        viol(f'one {c}-cycle (cycles_per_level={cpl}) without x0 ({how}) is not M b: max difference {np.abs(yz - zr).max():.3g}',
+             kind='mixed-dtype', **dict(desc, x0=_lst(np.zeros(n))))
+        return
+    pr, scp = ref_any(H, np.zeros(n), bw, c, 1)
+    if not _close(pv, pr, scp) or not _close(pv, pw, 1 + np.abs(pw).max(initial=0.0), 1e-13):
+        viol(f'aspreconditioner(cycle={c!r}) @ v with v stored as {np.asarray(b).dtype} is not M v of the values of v: difference from '
+             f'the textbook M v {np.abs(pv - pr).max():.3g}, from the same values stored in the common type {np.abs(pv - pw).max():.3g}',
+             kind='precond', **dict(desc, x0=_lst(np.zeros(n))))
+        return
+    if ys is not None:
+        ctx.feat('storage:fixed-point')
+        _, scs = ref_any(H, xs, bw, c, cpl)
+        if not _close(ys, xs, scs, 1e-8):
+            viol(f'the exact solution of a right-hand side stored as {np.asarray(b).dtype} is not a fixed point of a {c}-cycle '
+                 f'(cycles_per_level={cpl}): moved by {np.abs(ys - xs).max():.3g}', kind='mixed-dtype', **dict(desc, x0=_lst(xs)))
 
 
 def check_hier(ctx, spec, H, configs, lean_items, want_lean, want_m, precond=True):
@@ -909,6 +1244,9 @@ def check_hier(ctx, spec, H, configs, lean_items, want_lean, want_m, precond=Tru
         if not _close(ys, xs, scs, 1e-8):
             viol(f'the exact solution is not a fixed point of a {c}-cycle (cycles_per_level={cpl}): moved by {np.abs(ys - xs).max():.3g}',
                  kind='fixed', cycle=c, cpl=cpl, x0=_lst(xs), b=_lst(bs))
+        # ---- b and x0 stored in other types than the matrix (narrower, wider, integer, complex/real, Python list)
+        if not spec.get('light') or rng.random() < 0.5:
+            check_storage_types(ctx, spec, H, c, cpl, A0d, viol)
         # ---- Lean request for this configuration
         if want_lean:
             try:
@@ -921,6 +1259,11 @@ def check_hier(ctx, spec, H, configs, lean_items, want_lean, want_m, precond=Tru
             lean_items.append({'line': lean_line(H, hdr, c, cpl, k, want_m, x0, b), 'H': H, 'spec': spec, 'c': c, 'cpl': cpl, 'k': k,
                                'x0': x0, 'b': b, 'x1': x1, 'xk': xk, 'pv': pv, 'trace': tr, 'ptrace': ptr, 'scale': max(sc, sck),
                                'A0d': A0d})
+            if (c, cpl) == configs[0] or rng.random() < 0.1:        # extension E17: the composed solve-path models
+                try:
+                    lean_items[-1]['e17'] = e17_observe(ctx, H, hdr, c, cpl, x0, b, A0d, max(sc, sck))
+                except Exception as e:
+                    viol(f'solve with options / accelerated solve raised {type(e).__name__}: {e}', kind='e17-solve', **cdesc)
     if (H.nlev == 1 and singular1) or not precond:
         return ok
     ok &= check_precond(ctx, spec, H, A0d)
@@ -1386,10 +1729,12 @@ def run_specs(ctx, specs, lean_dim, m_dim, nconf=4, batch=None):
                 break
             if process_spec(ctx, spec, lean_items, sm_items, lean_dim, m_dim, nconf):
                 used += 1
-        heavy = [it['line'] for it in lean_items]
+        e17_items = [it for it in lean_items if 'e17' in it]
+        heavy = [it['line'] for it in lean_items] + [ln for it in e17_items for ln in it['e17']['lines']]
         light = [ln for it in sm_items for ln in it['lines']]
         oh, ol = _lean_balanced(ctx, heavy, light)
-        judge_lean(ctx, lean_items, oh)
+        judge_lean(ctx, lean_items, oh[:len(lean_items)])
+        judge_e17(ctx, e17_items, oh[len(lean_items):])
         judge_smoothers(ctx, sm_items, ol)
         if ctx.time_left() < (25 if ctx.quick else 150):
             break
@@ -1435,12 +1780,40 @@ def replay(ctx, data):
     instrument(ml, H.log)
     if 'cycle' in case and 'b' in case:
         c, cpl = case['cycle'], case.get('cpl', 1)
-        b = _vec(case['b'], H.cplx)
-        x0 = _vec(case['x0'], H.cplx) if 'x0' in case else np.zeros_like(b)
+        cpx = H.cplx or any(str(case.get(q, '')).startswith('c') for q in ('b_dtype', 'x0_dtype'))
+        b = _vec(case['b'], cpx)
+        x0 = _vec(case['x0'], cpx) if 'x0' in case else np.zeros_like(b)
+        yr, sc = ref_any(H, x0, b, c, cpl)
+        if 'b_dtype' in case:          # a storage-type case: the recorded values in the recorded storage types
+            b, x0 = _retype(b, case.get('b_dtype')), _retype(x0, case.get('x0_dtype'))
+            print('storage: b', case.get('b_dtype'), 'x0', case.get('x0_dtype'), 'matrix', ml.levels[0].A.dtype)
         y = _solve(H, b, x0, c, cpl)
-        yr, sc = ref(H, x0, b, c, cpl)
         print(f'one {c}-cycle cpl={cpl}: real', np.ravel(y)[:6].tolist(), 'textbook', yr[:6].tolist(), 'max diff', float(np.abs(np.ravel(y) - yr).max()))
         print('visits', ','.join(H.log.ev), '| textbook', ','.join(py_trace(c, cpl, 0, H.nlev)))
+    if 'maxiter' in case and 'x0given' in case and 'b' in case:        # an E17 case: the solve with its options, against the oracle
+        c, cpl = case['cycle'], case.get('cpl', 1)
+        b = _vec(case['b'], H.cplx)
+        x0 = _vec(case['x0'], H.cplx)
+        ob = {'K': case['maxiter'], 'tol': case['tol'], 'has_res': case['residuals'], 'has_cb': case['callback'],
+              'ret_info': case['return_info'], 'start': x0 if case['x0given'] else np.zeros_like(b)}
+        res = [-1.0] if ob['has_res'] else None
+        cbs = []
+        out = ml.solve(b, x0=(x0.copy() if case['x0given'] else None), tol=ob['tol'], maxiter=ob['K'], cycle=c, cycles_per_level=cpl,
+                       residuals=res, callback=(lambda v: cbs.append(np.array(np.ravel(v), copy=True))) if ob['has_cb'] else None,
+                       return_info=ob['ret_info'])
+        xr = np.ravel(out[0] if ob['ret_info'] else out)
+        it = {'c': c, 'cpl': cpl, 'b': b, 'A0d': ml.levels[0].A.toarray().astype(H.dt)}
+        k_real = len(cbs) if ob['has_cb'] else (len(res) - 1 if ob['has_res'] else ob['K'])
+        want = e17_oracle(H, it, dict(ob, tol=0.0, K=max(1, min(k_real, ob['K']))))
+        got = {'x': xr, 'cb': cbs}
+        sc = 4 * ref(H, ob['start'], b, c, cpl, ob['K'])[1]
+        same = _e17_vecs_same(got, want, sc)
+        print(f'solve with options (maxiter={ob["K"]}, tol={ob["tol"]}, x0 given={case["x0given"]}): {k_real} cycles; vectors '
+              f'{"agree with" if same else "DIFFER from"} the textbook cycle applied that many times '
+              f'(max diff {float(np.abs(xr - np.ravel(want["x"])).max()):.3g})')
+        if not same:
+            ctx.violation(f'stand-alone solve: the vector returned after {k_real} {c}-cycles (cycles_per_level={cpl}) or a callback argument '
+                          f'is not the textbook cycle applied that many times', dict(case, kind='cycle'))
     items = []
     check_hier(ctx, spec, H, CONFIGS if H.nlev >= 3 else [('V', 1), ('W', 1)], items, False, False)
     for v in ctx.violations[:6]:
